@@ -147,13 +147,13 @@ func selfTest(verif, repo, prop, work string) *selfTestResult {
 }
 
 // The lemmas about the spec functions that the SMT solvers take as axioms (they need induction) are proved
-// in Lean 4 + Mathlib over hand-transcribed definitions: /verif/lean/LemmaL.lean (L1, L2) and LemmaU.lean
+// in Lean 4 + Mathlib over hand-transcribed definitions: /verif/lean/LemmaL.lean (L1, L2, L3) and LemmaU.lean
 // (treap uniqueness). The thorough tier of the properties that use them re-checks the files.
 func leanFilesFor(prop string) []string {
 	switch prop {
 	case "C13":
 		return []string{"LemmaL.lean", "LemmaU.lean"}
-	case "C01":
+	case "C01", "C16":
 		return []string{"LemmaL.lean"}
 	}
 	return nil
@@ -167,7 +167,7 @@ type leanResult struct {
 }
 
 func checkLean(verif string, files []string) *leanResult {
-	r := &leanResult{What: "lean 4.33 + Mathlib re-checks the induction lemmas that prelude.smt2 states as axioms (L1: no member of a heap-ordered search tree outranks the root; L2: cnt of a search tree = number of its keys; U: a treap is determined by its key/priority pairs); the Lean definitions are transcribed from the prelude by hand"}
+	r := &leanResult{What: "lean 4.33 + Mathlib re-checks the induction lemmas that prelude.smt2 states as axioms (L1: no member of a heap-ordered search tree outranks the root; L2: cnt of a search tree = number of its keys; L3: a strictly increasing log segment holding exactly the keys of a search tree has cnt entries; U: a treap is determined by its key/priority pairs); the Lean definitions are transcribed from the prelude by hand"}
 	for _, f := range files {
 		c := exec.Command("lean", f)
 		c.Dir = filepath.Join(verif, "lean")
